@@ -1,4 +1,4 @@
 From Coq Require Import Extraction ExtrOcamlBasic List NArith.
 From BioVerif Require Import Lib.Conv Model.LSDB.
 Extraction Language OCaml.
-Extraction "c32_model.ml" conv_anchor init step lsps_to_send psnps_to_send.
+Extraction "c32_model.ml" conv_anchor init step lsps_to_send psnps_to_send csnps_to_send.
